@@ -94,10 +94,16 @@ def run_impl(logls, sched, expectation, nlive, int_schedule):
         and (ess1 == ess2 or (ess1 != ess1 and ess2 != ess2))
         and float(st.logZ) == trap
     )
+    _a = np.array(logls)
+    _a0 = _a.tobytes()
     if int_schedule:
-        z1, w1 = compute_weights(np.array(logls), nlive, expectation=expectation)
+        z1, w1 = compute_weights(_a, nlive, expectation=expectation)
     else:
-        z1, w1 = compute_weights(np.array(logls), np.array(sched, dtype=float), expectation=expectation)
+        _n = np.array(sched, dtype=float)
+        _n0 = _n.tobytes()
+        z1, w1 = compute_weights(_a, _n, expectation=expectation)
+        reads_ok = reads_ok and _n.tobytes() == _n0
+    reads_ok = reads_ok and _a.tobytes() == _a0
     return dict(rect=rect, vols=vols, trap=trap, lw=lw, z1=float(z1), w1=np.asarray(w1, dtype=float), reads_ok=reads_ok, ess=ess1,
                 logZ_attr=float(st.logZ), log_evidence=float(st.log_evidence))
 
@@ -127,7 +133,7 @@ def check_case(logls, sched, expectation, nlive, int_schedule, errs, label):
     if not close(out["trap"], trap, tol):
         errs.append((f"incremental-trapezoid-logZ:{label}", f"{out['trap']!r} vs mpmath {trap!r} ({ctxt})"))
     if not out["reads_ok"]:
-        errs.append((f"reading-weights-ess-evidence-is-not-idempotent:{label}", ctxt))
+        errs.append((f"reading-weights-ess-evidence-is-not-idempotent-or-an-input-array-was-modified:{label}", ctxt))
     if out["logZ_attr"] != out["trap"] or out["log_evidence"] != out["trap"]:
         errs.append((f"finalise-return-vs-attribute:{label}", ctxt))
     if not close(out["z1"], trap, tol):
